@@ -864,7 +864,7 @@ def one_history(ctx, c):
     for a in axes_of(name):
         k = 1 if (small and g.random() < 0.6) else int(g.integers(1, 6))
         ids[a] = g.choice(50, k, replace=False).tolist()
-    nxt = {"taxa": 100, "vrnt": int(g.choice([200, 200, 212])), "trait": 60}     # from 215 on physical positions exceed int32
+    nxt = {"taxa": 100, "vrnt": int(g.choice([200, 200, 212, 220])), "trait": 60}     # from 215 on physical positions exceed int32
     coords = [c, "hist"]
     try:
         obj = build(name, ids, regime)
